@@ -518,23 +518,6 @@ a theorem about the model but its modelling assumption (locality of mutation); t
 real code by reading every object again after the run.  What the model can state is its consequence for the
 flow: a value is processed the same way whatever values came before it. -/
 
-mutual
-/-- no `Split` with branches and no source element (whose outputs are not per-value) -/
-def St.linear : St → Bool
-  | .src => false
-  | .split bs => bs.isEmpty
-  | .seq _ cs _ => linearL cs
-  | _ => true
-def linearL : List St → Bool
-  | [] => true
-  | s :: ss => s.linear && linearL ss
-end
-
-/-- concatenation of two optional flows -/
-def appendOpt : Option (List Item) → Option (List Item) → Option (List Item)
-  | some a, some b => some (a ++ b)
-  | _, _ => none
-
 theorem mapM_append_opt {α β : Type} (g : α → Option β) : ∀ (f1 f2 : List α),
     (f1 ++ f2).mapM g = match f1.mapM g, f2.mapM g with
       | some a, some b => some (a ++ b)
